@@ -23,6 +23,14 @@ theorem open_requires (hb : Bool) (f : QFile) (h : (filePlan hb f).opened = true
       simp only [hbt, Bool.true_and, Bool.not_eq_true', Bool.not_eq_false] at hf
       cases hff : f.fileFilt <;> simp_all
 
+/-- non-vacuity: the premise of `open_requires` holds for a three-block file with bloom conditions whose file-level filters pass; two of its blocks survive the prefilter -/
+example : ∃ f : QFile, (filePlan true f).opened = true ∧ f.blocks.length = 3 ∧ (kept f).length = 2 :=
+  ⟨⟨true, [⟨0, 5, true, false, 9⟩, ⟨40, 3, true, true, 9⟩, ⟨80, 1, false, true, 9⟩]⟩, by decide, by decide, by decide⟩
+
+/-- non-vacuity: the premise also holds without bloom conditions for a file whose file-level filters would have ruled the query out -/
+example : ∃ f : QFile, (filePlan false f).opened = true ∧ f.fileFilt = false ∧ (kept f).length = 1 :=
+  ⟨⟨false, [⟨0, 5, true, false, 9⟩, ⟨40, 3, false, true, 0⟩]⟩, by decide, by decide, by decide⟩
+
 /-- Row data of a block is read only if its metadata satisfies the prefilter and its filters do
     not rule the query out. -/
 theorem rowread_requires (hb : Bool) (f : QFile) (o : Nat) (h : o ∈ rowReads (filePlan hb f)) :
@@ -48,6 +56,10 @@ theorem rowread_requires (hb : Bool) (f : QFile) (o : Nat) (h : o ∈ rowReads (
       cases hf : b.filt
       · simp [hbt, hsz, hf] at hp
       · rfl
+
+/-- non-vacuity: the premise of `rowread_requires` holds for block 40 of a three-block file (block 0 is pruned by its filters, block 80 by the prefilter) -/
+example : ∃ (f : QFile) (o : Nat), o ∈ rowReads (filePlan true f) ∧ o = 40 ∧ f.blocks.length = 3 :=
+  ⟨⟨true, [⟨0, 5, true, false, 9⟩, ⟨40, 3, true, true, 9⟩, ⟨80, 1, false, true, 9⟩]⟩, 40, by decide, by decide, by decide⟩
 
 /-- Without bloom or regex conditions no block filter region is read. -/
 theorem no_region_read_without_conditions (f : QFile) : (filePlan false f).regionRead = false := by
